@@ -4,7 +4,7 @@
    forall i < rows M, mvprod (rows M) (ent M) (fun k => nth k x zero) i = nth i b zero. *)
 From Coq Require Import List Arith ZArith Lia.
 From OV Require Import Base.Panic Base.Arith Base.Flat Model.Vector Model.Matrix Model.Solve Inst.QcInst
-  Proofs.Matrix Proofs.SolveBase Proofs.SolveBack Proofs.SolveGauss Proofs.Solve Proofs.SolveComplete Proofs.SolveQc Proofs.SolveR.
+  Proofs.Matrix Proofs.SolveBase Proofs.SolveBack Proofs.SolveGauss Proofs.Solve Proofs.SolveComplete Proofs.SolveQc Proofs.SolveR Proofs.SolveC Proofs.SolvePanic.
 Import ListNotations.
 
 (* C01, Gaussian elimination half: whatever solve_basic returns solves the system (any field, any size). *)
@@ -145,3 +145,61 @@ Check solve_basic_correct_R : forall (M : matrix AR) (b : list AR),
     (forall y, length y = rows M ->
        (forall i, i < rows M -> mvprod (rows M) (ent M) (fun k => nth k y zero) i = nth i b zero) -> y = x).
 Print Assumptions solve_basic_correct_R.
+
+(* Safety: on a well-formed, conformable, non-empty square system the only panic solve_basic can raise is the
+   zero divisor (no index out of range, no usize underflow, no guard), over any field; and under the
+   magnitude laws a panic certifies that the matrix has no left inverse (third theorem shape of DESIGN 3.3). *)
+Theorem solve_basic_panic_kind : forall (A : Arith), FieldLaws A -> forall (M : matrix A) (b : list A) (k : pkind),
+  wf M -> rows M = cols M -> length b = rows M -> 1 <= rows M ->
+  solve_basic M b = Panic k -> k = DivZero.
+Proof. intros A FL M b k. exact (solve_basic_panic_kind_lemma FL M b k). Qed.
+Check solve_basic_panic_kind : forall (A : Arith), FieldLaws A -> forall (M : matrix A) (b : list A) (k : pkind),
+  wf M -> rows M = cols M -> length b = rows M -> 1 <= rows M ->
+  solve_basic M b = Panic k -> k = DivZero.
+Print Assumptions solve_basic_panic_kind.
+
+Theorem solve_basic_panic_singular : forall (A : Arith), FieldLaws A -> PivLaws A ->
+  forall (M : matrix A) (b : list A) (k : pkind),
+  wf M -> rows M = cols M -> length b = rows M -> 1 <= rows M ->
+  solve_basic M b = Panic k ->
+  k = DivZero /\ ~ exists N : nat -> nat -> A, left_inverse (rows M) N (ent M).
+Proof. intros A FL PL M b k. exact (solve_basic_panic_singular_lemma FL PL M b k). Qed.
+Check solve_basic_panic_singular : forall (A : Arith), FieldLaws A -> PivLaws A ->
+  forall (M : matrix A) (b : list A) (k : pkind),
+  wf M -> rows M = cols M -> length b = rows M -> 1 <= rows M ->
+  solve_basic M b = Panic k ->
+  k = DivZero /\ ~ exists N : nat -> nat -> A, left_inverse (rows M) N (ent M).
+Print Assumptions solve_basic_panic_singular.
+
+(* non-vacuity: a singular 3x3 system whose sub-column at step 1 is zero: the pivot search falls back to its
+   initial index 0, row 0 is exchanged into the active part, and the run ends in the zero-divisor panic
+   (corpus/C01/zero_subcolumn_row0_swap.json) *)
+Definition S3 : matrix AQ := @mkM AQ [q 1 1; q 1 1; q 0 1;  q 1 1; q 1 1; q 1 1;  q 1 1; q 1 1; q 2 1] 3 3.
+Example solve_basic_panic_nonvacuous :
+  wf S3 /\ rows S3 = cols S3 /\ length [q 1 1; q 2 1; q 3 1] = rows S3 /\ 1 <= rows S3 /\
+  solve_basic S3 [q 1 1; q 2 1; q 3 1] = Panic DivZero /\
+  (let* s := gauss_body 0 (S3, [q 1 1; q 2 1; q 3 1]) in max_abs_in_column (fst s) 1 1) = Ok 0.
+Proof.
+  split; [reflexivity|]. split; [reflexivity|]. split; [reflexivity|]. split; [cbn; lia|].
+  split; vm_compute; reflexivity.
+Qed.
+
+(* Corollary over the complex numbers (ACR of Proofs/SolveC.v: Model/Complex.v's own operators -- the code's
+   formulas for * and /, Signed::abs = (|z|, 0), the lexicographic PartialOrd -- over the real instance AR),
+   the idealisation of the Complex<f64> element type. *)
+Theorem solve_basic_correct_C : forall (M : matrix ACR) (b : list ACR),
+  wf M -> rows M = cols M -> length b = rows M -> 1 <= rows M ->
+  (exists N : nat -> nat -> ACR, left_inverse (rows M) N (ent M)) ->
+  exists x, solve_basic M b = Ok x /\ length x = rows M /\
+    (forall i, i < rows M -> mvprod (rows M) (ent M) (fun k => nth k x zero) i = nth i b zero) /\
+    (forall y, length y = rows M ->
+       (forall i, i < rows M -> mvprod (rows M) (ent M) (fun k => nth k y zero) i = nth i b zero) -> y = x).
+Proof. exact solve_basic_correct_C_lemma. Qed.
+Check solve_basic_correct_C : forall (M : matrix ACR) (b : list ACR),
+  wf M -> rows M = cols M -> length b = rows M -> 1 <= rows M ->
+  (exists N : nat -> nat -> ACR, left_inverse (rows M) N (ent M)) ->
+  exists x, solve_basic M b = Ok x /\ length x = rows M /\
+    (forall i, i < rows M -> mvprod (rows M) (ent M) (fun k => nth k x zero) i = nth i b zero) /\
+    (forall y, length y = rows M ->
+       (forall i, i < rows M -> mvprod (rows M) (ent M) (fun k => nth k y zero) i = nth i b zero) -> y = x).
+Print Assumptions solve_basic_correct_C.
